@@ -1,0 +1,31 @@
+package gen
+
+import "fmt"
+
+// MaxParenDepth は 1 行の中で入れ子にできる括弧の深さの上限です。
+// パーサーは再帰下降なので、極端に深い入れ子 (数万段) はゴルーチンのスタックを使い果たし、
+// recover できない fatal error: stack overflow でプロセスごと落ちます。
+const MaxParenDepth = 1000
+
+// CheckNesting は、ソースの括弧の入れ子が MaxParenDepth を超えていないかを調べます。
+// 超えている場合はパースを始める前にエラーを返します (式は行をまたがないので行ごとに数える)。
+func CheckNesting(src []byte) error {
+	depth, line := 0, 1
+	for _, b := range src {
+		switch b {
+		case '\n':
+			depth = 0
+			line++
+		case '(':
+			depth++
+			if depth > MaxParenDepth {
+				return fmt.Errorf("line %d: parentheses nested deeper than %d levels", line, MaxParenDepth)
+			}
+		case ')':
+			if depth > 0 {
+				depth--
+			}
+		}
+	}
+	return nil
+}
